@@ -59,30 +59,41 @@ def go_env():
     return env
 
 
-def overlay_file():
-    """harness/overlay/root/* -> /repo/* ; harness/overlay/pkgs/<rel>/* -> /repo/<rel>/*"""
+def overlay_file(tags=None):
+    """harness/overlay/root/* -> /repo/* ; harness/overlay/pkgs/<rel>/* -> /repo/<rel>/*.
+    Only files named zz_verif_<tag>_*.go / zz_verif_<tag>.go with <tag> in `tags` (plus the shared
+    `lab` files) are mapped, so one property's harness never depends on another's."""
     ensure_dirs()
+    want = set(tags or []) | {"lab"}
+
+    def selected(fn):
+        if not fn.endswith(".go"):
+            return False
+        m = re.match(r"zz_verif_([a-z0-9]+)(_|\.)", fn)
+        return bool(m) and (tags is None or m.group(1) in want)
+
     repl = {}
-    for base, target in ((os.path.join(OVERLAY_SRC, "root"), REPO),):
-        if os.path.isdir(base):
-            for fn in sorted(os.listdir(base)):
-                if fn.endswith(".go"):
-                    repl[os.path.join(target, fn)] = os.path.join(base, fn)
+    base = os.path.join(OVERLAY_SRC, "root")
+    if os.path.isdir(base):
+        for fn in sorted(os.listdir(base)):
+            if selected(fn):
+                repl[os.path.join(REPO, fn)] = os.path.join(base, fn)
     pk = os.path.join(OVERLAY_SRC, "pkgs")
     for dirpath, _, files in os.walk(pk):
         rel = os.path.relpath(dirpath, pk)
         for fn in sorted(files):
-            if fn.endswith(".go"):
+            if selected(fn):
                 repl[os.path.join(REPO, rel, fn)] = os.path.join(dirpath, fn)
-    path = os.path.join(WORK, "overlay.%d.json" % os.getpid())
+    path = os.path.join(WORK, "overlay.%d.%d.json" % (os.getpid(), int(time.time() * 1e6) % 10**9))
     with open(path, "w") as f:
         json.dump({"Replace": repl}, f)
     return path
 
 
-def go_test(pkg, run, env=None, timeout=900, race=False, extra=None):
-    """Run `go1.26 test` on a /repo package with the verif overlay. Returns (rc, output)."""
-    ov = overlay_file()
+def go_test(pkg, run, env=None, timeout=900, race=False, extra=None, tags=None):
+    """Run `go1.26 test` on a /repo package with the verif overlay (files selected by `tags`).
+    Returns (rc, output)."""
+    ov = overlay_file(tags)
     e = go_env()
     if race:
         e["CGO_ENABLED"] = "1"
@@ -126,6 +137,45 @@ def read_jsonl(path):
 
 
 # ----------------------------------------------------------------- Coq
+
+def gen_packages():
+    """packages that contain a zz_verif_gen_* dumper"""
+    pkgs = []
+    base = os.path.join(OVERLAY_SRC, "root")
+    if any(fn.startswith("zz_verif_gen_") for fn in os.listdir(base)):
+        pkgs.append(".")
+    pk = os.path.join(OVERLAY_SRC, "pkgs")
+    for dirpath, _, files in os.walk(pk):
+        if any(fn.startswith("zz_verif_gen_") for fn in files):
+            pkgs.append("./" + os.path.relpath(dirpath, pk))
+    return sorted(pkgs)
+
+
+def regenerate():
+    """Tie 1: rewrite coq/theories/Gen/Generated.v from /repo's current tree by executing the
+    dumpers (TestVerifGen*). Returns (ok, detail). The file is only touched when it changes."""
+    parts = []
+    for pkg in gen_packages():
+        out = out_path("gen")
+        rc, o = go_test(pkg, "^TestVerifGen", {"VERIF_OUT": out}, tags=["gen"], timeout=600)
+        if rc != 0:
+            cleanup(out)
+            return False, "generator for %s failed:\n%s" % (pkg, o[-3000:])
+        parts.append("(* ---- from package %s ---- *)\n" % pkg + open(out).read())
+        cleanup(out)
+    txt = ("(* GENERATED on every run by lib/vlib.py regenerate() from /repo's working tree by executing\n"
+           "   the TestVerifGen* dumpers through go test -overlay. Do not edit. *)\n"
+           "From Coq Require Import List NArith.\nImport ListNotations.\nOpen Scope N_scope.\n\n"
+           + "\n".join(parts))
+    p = os.path.join(COQ, "theories", "Gen", "Generated.v")
+    with Lock("gen"):
+        old = open(p).read() if os.path.exists(p) else None
+        if old != txt:
+            os.makedirs(os.path.dirname(p), exist_ok=True)
+            with open(p, "w") as f:
+                f.write(txt)
+    return True, ""
+
 
 def coq_project_files():
     files = []
@@ -355,6 +405,10 @@ class Check:
     # -- proof leg
     def prove(self, extra_targets=None):
         """Build Properties/<prop>.vo (full .vo), audit, collect assumptions. Returns ok."""
+        okg, detail = regenerate()
+        if not okg:
+            self.proof_error = ("Gen/Generated.v", detail)
+            return False
         bad = coq_audit()
         if bad:
             self.broken("coq-audit: forbidden construct in development", "\n".join(bad))
